@@ -71,7 +71,6 @@ def decAddr (c : AddrCodec) (s : Bytes) (what : String) : Outcome Bytes :=
   | some a => .ok a
   | none => .err ("invalid-address:" ++ what)
 
-def decU64 (n : Nat) : Nat := (n + 18446744073709551615) % 18446744073709551616
 
 /-- Message server.  `now` is `ctx.BlockTime().UnixNano()`. -/
 def handle (c : AddrCodec) (now : Int) (s : State) : Msg → Outcome (State × Resp)
